@@ -126,6 +126,11 @@ func cmdCheck(args []string) {
 		os.Exit(1)
 	}
 	p.curProp = *prop
+	if fds, err := loadFindings(filepath.Join(*vdir, "known_findings.txt")); err == nil {
+		for _, fd := range fds {
+			noRetry[fd.Obligation] = true
+		}
+	}
 	cc := &CheckCtx{P: p, Prop: *prop, Tier: *tier, Timeout: *timeout, Repo: *repo, VerifDir: *vdir, OutDir: *outDir}
 	if cc.OutDir == "" {
 		cc.OutDir = *vdir
